@@ -844,6 +844,13 @@ def compare_fixed(ctx, case, mode, run, msegs, merr, leg, float_counts=None):
             # reports non-convergence - loud, and not a difference of the schemes
             ctx.hist("outcome", "ConvergenceError below float resolution (maxerror < 1e-13 |state|)")
             return None
+        if (not ok and merr == "convergence" and run["error"] is None and msegs
+                and case.get("maxerror", 1.0) <= 1e-13 * _scale(case, [s_["state"] for s_ in msegs])):
+            # the mirror image: the requested accuracy lies below the resolution of doubles at the size of the state,
+            # so the iterates of the real code reach a stationary double (change exactly 0) long before the exact
+            # iteration of the model gets below `maxerror` - the exact model runs out of iterations, the code converges
+            ctx.hist("outcome", "converged at a stationary double where the exact iteration exceeds maxiter (maxerror < 1e-13 |state|)")
+            return None
         if not ok:
             ctx.disagree(leg, rec, {"error": merr, "segments_done": len(msegs)}, {"error": run["error"]},
                          "error behaviour differs")
